@@ -6,19 +6,22 @@ from ..model import AnalysisError, norm
 from ..cfg import build_cfg
 from ..astutil import short, call_name
 from ..report import fkey
-from ..rules import guards, truth
+from ..rules import guards, truth, absint
 from ..rules.common import *
 
 EXPLANATION = (
-    'Decides the classification and evaluation contract structurally: the truth tables of _can_be_objective '
+    'Decides the classification and evaluation contract on the code itself: the truth tables of _can_be_objective '
     '(direction AND permanent) and _can_be_constraint (direction AND reference) are computed from their return '
-    'expressions; a metric declared NONE short-circuits to no role; the role set is the union of both capability '
-    'bits, replaced by the declared type exactly when both are possible and a type is declared; objectives / '
-    'constraints are appended only under the corresponding bit (control dependence), the ambiguous case consults '
-    '_choose_metric_type, every implementation of which raises; permanent nodes are the nodes of the confirmed '
-    'initial graph; evaluate(): every value look-up has the NaN default, the constraint value is the reference '
-    'exactly on the "node not in this architecture" side, result order follows the objective / constraint lists '
-    'built from name-sorted metric nodes.')
+    'expressions; the role of a metric is a decision table over (declared type: none / NONE / OBJECTIVE / CONSTRAINT / '
+    'OBJ_OR_CON) x (can be objective) x (can be constraint) - _get_metrics is interpreted abstractly for all 20 '
+    'inputs (rules/absint.py: constants for the finite inputs, opaque terms for everything else, private helpers '
+    'interpreted in place) and compared with the documented table; _categorize_metrics is interpreted for the four '
+    'role sets (what is appended to which list, whether the chooser is consulted), every implementation of '
+    '_choose_metric_type raises; evaluate() is interpreted for one generic metric node / objective / constraint: the '
+    'reported values are read off as terms (look-up in the mapping returned by _evaluate for this instance, NaN '
+    'default, the reference value exactly on the "node absent from this instance" side, values stored on the '
+    'instance).  The spelling (nested ifs, guard clauses, flag variables, comprehension or loop, local helper) does '
+    'not matter.  Not decided: the values an evaluator returns.')
 
 
 def predicates(ctx, rule='A17t'):
@@ -55,33 +58,93 @@ def predicates(ctx, rule='A17t'):
            'a choice', '')
 
 
+def _metric_type_values(ctx):
+    """NONE/OBJECTIVE/CONSTRAINT/OBJ_OR_CON -> flag value, read from the enum class body."""
+    cls = ctx.prog.cls('adsg_core.graph.adsg_nodes:MetricType')
+    vals, auto = {}, 1
+    for st in cls.node.body:
+        if isinstance(st, ast.Assign) and isinstance(st.targets[0], ast.Name):
+            k, v = st.targets[0].id, st.value
+            if isinstance(v, ast.Constant) and isinstance(v.value, int):
+                vals[k] = v.value
+            elif isinstance(v, ast.Call) and norm(v.func) in ('enum.auto', 'auto'):
+                vals[k] = auto
+                auto *= 2
+            elif isinstance(v, ast.BinOp) and isinstance(v.op, ast.BitOr) and isinstance(v.left, ast.Name) and \
+                    isinstance(v.right, ast.Name):
+                vals[k] = vals[v.left.id] | vals[v.right.id]
+            else:
+                raise AnalysisError(f'MetricType: unrecognised member definition `{norm(st)}`')
+    if set(vals) != {'NONE', 'OBJECTIVE', 'CONSTRAINT', 'OBJ_OR_CON'} or vals['NONE'] != 0 or \
+            vals['OBJ_OR_CON'] != vals['OBJECTIVE'] | vals['CONSTRAINT']:
+        raise AnalysisError(f'MetricType members changed: {vals}')
+    return vals
+
+
 def typing_rules(ctx, rule='A17c'):
     fn = ctx.fn(f'{GP}._get_metrics')
-    cfg = build_cfg(fn)
     txt = FnText(ctx, fn)
-    ok = 'is_none = isinstance(metric_node.type, MetricType) and metric_node.type == MetricType.NONE' in txt
-    ctx.ob(rule, fkey(fn, rule, 'declared-none-detected'), ok, fn.where,
-           'a metric whose declared type is MetricType.NONE is recognised', '')
-    none_assign = [n for n in cfg.nodes if n.kind == 'stmt' and isinstance(n.ast, ast.Assign) and
-                   norm(n.ast) == 'metric_type = MetricType.NONE']
-    ok = bool(none_assign) and any(p.kind == 'test' and lab == 'T' and norm(p.ast) == 'is_none'
-                                   for p, lab in none_assign[0].pred)
-    ctx.ob(rule, fkey(fn, rule, 'declared-none-means-no-role'), ok, fn.where,
-           'a metric declared NONE gets no role, whatever its direction / reference', '')
-    ok = 'obj = MetricType.OBJECTIVE if self._can_be_objective(metric_node, permanent_nodes) else MetricType.NONE' in txt and \
-        'constr = MetricType.CONSTRAINT if self._can_be_constraint(metric_node) else MetricType.NONE' in txt and \
-        'metric_type = obj | constr' in txt
-    ctx.ob(rule, fkey(fn, rule, 'role-set-is-union'), ok, fn.where,
-           'the possible roles are the union of the objective bit (if it can be one) and the constraint bit', '')
-    pref = [n for n in cfg.nodes if n.kind == 'stmt' and isinstance(n.ast, ast.Assign) and
-            norm(n.ast) == 'metric_type = metric_node.type']
-    ok = bool(pref)
-    if ok:
-        t = [p for p, lab in pref[0].pred if p.kind == 'test' and lab == 'T']
-        ok = bool(t) and norm(t[0].ast) == 'metric_type == MetricType.OBJ_OR_CON and isinstance(metric_node.type, MetricType)'
-    ctx.ob(rule, fkey(fn, rule, 'declared-type-decides-only-if-both'), ok, fn.where,
-           'the declared type replaces the role set exactly when both roles are possible and a type is declared',
-           '')
+    mt = _metric_type_values(ctx)
+    names = {v: k for k, v in mt.items()}
+    helpers = {h.name: h for h in unit_functions(ctx.prog, fn)[1:]}
+
+    def run_typing(declared, can_obj, can_con):
+        def oracle(kind, node, args, path):
+            if kind == 'attr':
+                base = args[0]
+                if isinstance(base, absint.Sym) and base.term == ('name', 'MetricType') and node.attr in mt:
+                    return mt[node.attr]
+                if node.attr == 'type':
+                    return declared
+            if kind == 'call':
+                nm = call_name(node)
+                if nm == '_can_be_objective':
+                    return can_obj
+                if nm == '_can_be_constraint':
+                    return can_con
+                if nm == 'isinstance' and len(args[0]) == 2 and isinstance(args[0][1], absint.Sym) and \
+                        args[0][1].term == ('name', 'MetricType'):
+                    a0 = args[0][0]
+                    if a0 is None or isinstance(a0, int):
+                        return a0 is not None
+            return absint.NOTHING
+        paths = absint.Interp(fn, helpers, oracle).run()
+        roles = set()
+        for q in paths:
+            if q.outcome[0] != 'return' or not isinstance(q.outcome[1], absint.AList) or not q.outcome[1].items:
+                raise AnalysisError(f'_get_metrics: result is not the list of (node, role) pairs ({q.outcome})')
+            it = q.outcome[1].items[-1]
+            if not (isinstance(it, tuple) and len(it) == 2):
+                raise AnalysisError(f'_get_metrics: unrecognised list element {it!r}')
+            roles.add(it[1])
+        if len(roles) != 1 or not isinstance(next(iter(roles)), int):
+            raise AnalysisError(f'_get_metrics: role not decided for declared={declared} ({roles})')
+        return roles.pop()
+
+    def nm(v):
+        return 'undeclared' if v is None else names.get(v, str(v))
+    for declared in (None, mt['NONE'], mt['OBJECTIVE'], mt['CONSTRAINT'], mt['OBJ_OR_CON']):
+        for can_obj in (False, True):
+            for can_con in (False, True):
+                got = run_typing(declared, can_obj, can_con)
+                union = (mt['OBJECTIVE'] if can_obj else 0) | (mt['CONSTRAINT'] if can_con else 0)
+                if declared == mt['NONE']:
+                    want, key = mt['NONE'], 'declared-none-means-no-role'
+                    desc = 'a metric declared NONE gets no role, whatever its direction / reference'
+                elif declared is None:
+                    want, key = union, 'role-set-is-union'
+                    desc = 'the possible roles of an undeclared metric are the union of the objective bit (if it ' \
+                           'can be one) and the constraint bit'
+                else:
+                    want = declared if union == mt['OBJ_OR_CON'] else union
+                    key = 'declared-type-decides-only-if-both'
+                    desc = 'the declared type replaces the role set exactly when both roles are possible; ' \
+                           'otherwise the possible role stands'
+                ctx.ob(rule, fkey(fn, rule, f'{key}:{nm(declared)}:obj={int(can_obj)}:con={int(can_con)}'),
+                       got == want, fn.where, desc,
+                       f'declared {nm(declared)}, can be objective {can_obj}, can be constraint {can_con}: role '
+                       f'{names.get(got, got)}' + ('' if got == want else f', expected {names.get(want, want)}'),
+                       nontrivial=(can_obj and can_con))
     ok = 'permanent_nodes = self.permanent_nodes' in txt and 'for metric_node in self.metric_nodes' in txt
     ctx.ob(rule, fkey(fn, rule, 'iterates-sorted-metric-nodes'), ok, fn.where,
            'metrics are classified in the order of the name-sorted metric-node list', '')
@@ -90,40 +153,66 @@ def typing_rules(ctx, rule='A17c'):
     ok = 'sorted(self.graph.get_nodes_by_type(MetricNode), key=lambda n: n.name)' in t
     ctx.ob(rule, fkey(mn, rule, 'metric-nodes-sorted-by-name'), ok, mn.where,
            'the metric nodes are sorted by name (stable output order)', t[:100])
-    # categorisation: control dependence
+    # categorisation: decision table over the four role sets (abstract interpretation of the loop body)
     cat = ctx.fn(f'{GP}._categorize_metrics')
-    cfgc = build_cfg(cat)
-    obj_app = guards.call_nodes(cfgc, 'append', pred=lambda c: norm(c.func.value) == 'objectives')
-    con_app = guards.call_nodes(cfgc, 'append', pred=lambda c: norm(c.func.value) == 'constraints')
-    if not obj_app or not con_app:
-        raise AnalysisError('_categorize_metrics: appends not found')
+    chelpers = {h.name: h for h in unit_functions(ctx.prog, cat)[1:] if h.name != '_choose_metric_type'}
 
-    def bit(name):
-        def g(atom, truth_):
-            return truth_ is True and isinstance(atom, ast.BinOp) and isinstance(atom.op, ast.BitAnd) and \
-                norm(atom.right) == f'MetricType.{name}' and norm(atom.left) == 'metric_type'
-        return g
-    guards.check_guarded(ctx, rule, cat, obj_app, bit('OBJECTIVE'), set(), 'objective-needs-objective-bit',
-                         'a metric is appended to the objectives only under the OBJECTIVE bit of its role set')
-    guards.check_guarded(ctx, rule, cat, con_app, bit('CONSTRAINT'), set(), 'constraint-needs-constraint-bit',
-                         'a metric is appended to the constraints only under the CONSTRAINT bit of its role set')
-    choose = guards.call_nodes(cfgc, '_choose_metric_type')
-    ok = bool(choose)
-    if ok:
-        e1 = cfgc.edges_implying(bit('OBJECTIVE'))
-        e2 = cfgc.edges_implying(bit('CONSTRAINT'))
-        ok = not cfgc.can_reach(cfgc.entry, choose[0], blocked_edges=e1) and \
-            not cfgc.can_reach(cfgc.entry, choose[0], blocked_edges=e2)
+    def run_cat(role):
+        def oracle(kind, node, args, path):
+            if kind == 'attr':
+                base = args[0]
+                if isinstance(base, absint.Sym) and base.term == ('name', 'MetricType') and node.attr in mt:
+                    return mt[node.attr]
+            return absint.NOTHING
+
+        def binder(target, it, path):
+            if isinstance(target, ast.Tuple) and len(target.elts) == 2 and all(isinstance(e, ast.Name)
+                                                                                 for e in target.elts):
+                return {target.elts[0].id: absint.Sym(('elem', absint._t(it), 0)), target.elts[1].id: role}
+            return None
+        return absint.Interp(cat, chelpers, oracle, binder).run()
+
+    def made_by(v, cls_name):
+        t = v.term if isinstance(v, absint.Sym) else None
+        return isinstance(t, tuple) and t[0] == 'call' and t[1] == ('attr', ('name', cls_name), 'from_metric_node')
+
+    def chooser(q):
+        return [e for e in q.trace if e[0] == 'call' and e[1][1][0] == 'attr' and e[1][1][2] == '_choose_metric_type']
+    table = {}
+    for role in (0, 1, 2, 3):
+        res = []
+        for q in run_cat(role):
+            out = q.outcome
+            if out[0] == 'raise':
+                res.append(('raise', None, None, q))
+                continue
+            if out[0] != 'return' or not (isinstance(out[1], tuple) and len(out[1]) == 2 and
+                                          all(isinstance(x, absint.AList) for x in out[1])):
+                raise AnalysisError(f'_categorize_metrics: result is not (objectives, constraints): {out}')
+            res.append(('ok', out[1][0].items, out[1][1].items, q))
+        table[role] = res
+    R_OBJ, R_CON, R_BOTH = mt['OBJECTIVE'], mt['CONSTRAINT'], mt['OBJ_OR_CON']
+    ok = all(k == 'ok' and not o and not c for k, o, c, q in table[0]) and \
+        all(k == 'ok' and not o for k, o, c, q in table[R_CON]) and \
+        all(k == 'ok' and len(o) == 1 and made_by(o[0], 'Objective') for k, o, c, q in table[R_OBJ])
+    ctx.ob(rule, fkey(cat, rule, 'objective-needs-objective-bit'), ok, cat.where,
+           'a metric becomes an objective exactly under the OBJECTIVE bit of its role set (no role: nothing; '
+           'constraint only: no objective)', '; '.join(f'role {r}: objectives {[repr(x) for x in o or []]}'
+                                                      for r in (0, R_OBJ, R_CON) for k, o, c, q in table[r])[:300])
+    ok = all(k == 'ok' and not c for k, o, c, q in table[0]) and \
+        all(k == 'ok' and not c for k, o, c, q in table[R_OBJ]) and \
+        all(k == 'ok' and len(c) == 1 and made_by(c[0], 'Constraint') for k, o, c, q in table[R_CON])
+    ctx.ob(rule, fkey(cat, rule, 'constraint-needs-constraint-bit'), ok, cat.where,
+           'a metric becomes a constraint exactly under the CONSTRAINT bit of its role set', '')
+    ok = bool(table[R_BOTH]) and all(k == 'raise' or chooser(q) for k, o, c, q in table[R_BOTH]) and \
+        all(k == 'raise' or all(not made_by(x, 'Objective') and not made_by(x, 'Constraint') for x in o + c)
+            for k, o, c, q in table[R_BOTH])
     ctx.ob(rule, fkey(cat, rule, 'ambiguous-consults-chooser'), ok, cat.where,
-           'when both bits are set (and no declared type resolved it) _choose_metric_type decides', '')
-    # plain objective append (not via chooser) is on the "not CONSTRAINT" side
-    plain = [n for n in obj_app if 'item' not in norm(n.ast)]
-    if plain:
-        e = cfgc.edges_implying(lambda atom, t: t is False and isinstance(atom, ast.BinOp) and
-                                norm(atom.right) == 'MetricType.CONSTRAINT')
-        ok = not cfgc.can_reach(cfgc.entry, plain[0], blocked_edges=e)
-        ctx.ob(rule, fkey(cat, rule, 'unambiguous-objective'), ok, cat.where,
-               'an objective is appended without consulting the chooser only when the CONSTRAINT bit is absent', '')
+           'when both bits are set (and no declared type resolved it) _choose_metric_type decides: nothing is '
+           'appended without consulting it', '')
+    ok = all(not chooser(q) for r in (0, R_OBJ, R_CON) for k, o, c, q in table[r])
+    ctx.ob(rule, fkey(cat, rule, 'unambiguous-objective'), ok, cat.where,
+           'an unambiguous metric is categorised without consulting the chooser', '')
     # every implementation of _choose_metric_type raises
     n = 0
     for c in [ctx.prog.cls(GP)] + ctx.prog.subclasses(ctx.prog.cls(GP)):
@@ -155,87 +244,153 @@ def typing_rules(ctx, rule='A17c'):
 
 
 def evaluate_rules(ctx, rule='A17e'):
+    """evaluate() is interpreted abstractly (one generic metric node / objective / constraint): what the returned
+    lists contain is read off as terms, so a comprehension, an explicit loop with append, a conditional expression,
+    an if statement and a local look-up helper all give the same verdict."""
     fn = ctx.fn('adsg_core.optimization.evaluator:DSGEvaluator.evaluate')
-    # the values reported come from the evaluator's answer of THIS call, never from values stored on the graph
-    # (a derived graph inherits the stored values of its parent, also for nodes it no longer has)
-    result_maps = {norm(s.targets[0]) for s in walk_fn(fn) if isinstance(s, ast.Assign) and
-                   isinstance(s.value, ast.Call) and call_name(s.value) == '_evaluate'}
-    if not result_maps:
-        raise AnalysisError('evaluate: call of _evaluate not found')
-    lookups = [c for c in calls(fn, 'get') if c.args and norm(c.args[0]).endswith('.node')] + \
-        [x for x in walk_fn(fn) if isinstance(x, ast.Subscript) and norm(x.slice).endswith('.node')]
-    # a local helper that does the look-up for its argument counts as the look-up, provided it hands the evaluator's
-    # value through unchanged: `m.get(node, nan)` - not `m.get(node) or nan`, which turns a legitimate 0.0 into NaN
-    for h in fn.nested.values():
-        if len(h.params) != 1:
-            continue
-        rets = returns_of(h)
-        hcalls = [c for c in walk_fn(fn) if isinstance(c, ast.Call) and isinstance(c.func, ast.Name) and
-                  c.func.id == h.name and c.args and norm(c.args[0]).endswith('.node')]
-        if not rets or not hcalls:
-            continue
-        rv = rets[-1].value
-        plain = isinstance(rv, ast.Call) and call_name(rv) == 'get' and rv.args and norm(rv.args[0]) == h.params[0]
-        ctx.ob(rule, fkey(h, rule, 'helper-hands-value-through'), plain and len(rets) == 1, h.where,
-               'the look-up helper returns the evaluator\'s value itself (missing -> the default of .get), without a '
-               'truthiness fallback that would also replace 0.0', short(rv, 80))
-        inner = rv if plain else next((x for x in ast.walk(rv) if isinstance(x, ast.Call) and call_name(x) == 'get'), None)
-        if inner is not None:
-            for c in hcalls:
-                lookups.append(ast.copy_location(ast.Call(func=inner.func, args=[c.args[0]] + list(inner.args[1:]),
-                                                          keywords=[]), c))
-    if len(lookups) < 2:
-        raise AnalysisError('evaluate: no value look-up keyed by the node of an objective / constraint found')
-    for i, c in enumerate(lookups):
-        recv = norm(c.func.value) if isinstance(c, ast.Call) else norm(c.value)
-        ctx.ob(rule, fkey(fn, rule, f'value-from-this-evaluation:{norm(c.args[0]) if isinstance(c, ast.Call) else norm(c.slice)}'),
-               recv in result_maps, f'{fn.module.relpath}:{c.lineno}',
-               'the value reported for an objective / constraint is looked up in the mapping returned by _evaluate '
-               'for this instance', f'looked up in `{recv}`' + ('' if recv in result_maps else
-                                                                 ' - not the result of this evaluation'))
-    gets = [c for c in calls(fn, 'get') if norm(c.func.value) in result_maps]
-    for i, c in enumerate(gets):
-        ok = len(c.args) == 2 and norm(c.args[1]) in ('math.nan', "float('nan')", 'np.nan', 'nan')
-        ctx.ob(rule, fkey(fn, rule, f'nan-default:{norm(c.args[0])}'), ok, f'{fn.module.relpath}:{c.lineno}',
-               'a value that the evaluator did not provide is reported as NaN', short(c))
-    comps = [s for s in walk_fn(fn) if isinstance(s, ast.Assign) and isinstance(s.value, ast.ListComp)]
-    oc = [s for s in comps if norm(s.targets[0]) == 'objective_values']
-    cc = [s for s in comps if norm(s.targets[0]) == 'constraint_values']
-    ok = bool(oc) and norm(oc[0].value.generators[0].iter) == 'self.objectives' and \
-        'objective.node' in norm(oc[0].value.elt)
-    ctx.ob(rule, fkey(fn, rule, 'one-value-per-objective-in-order'), ok, fn.where,
-           'one value per objective, in the order of self.objectives, looked up by the objective\'s node', '')
-    ok = False
-    detail = 'constraint comprehension not found'
-    if cc:
-        elt = cc[0].value.elt
-        ok = isinstance(elt, ast.IfExp) and isinstance(elt.test, ast.Compare) and \
-            isinstance(elt.test.ops[0], ast.In) and norm(elt.test.left) == 'constraint.node' and \
-            norm(elt.orelse) == 'constraint.ref' and 'value_map.get(constraint.node' in norm(elt.body) and \
-            norm(cc[0].value.generators[0].iter) == 'self.constraints'
-        # also accept the mirrored form
-        if not ok and isinstance(elt, ast.IfExp) and isinstance(elt.test, ast.Compare) and \
-                isinstance(elt.test.ops[0], ast.NotIn):
-            ok = norm(elt.body) == 'constraint.ref' and 'value_map.get(constraint.node' in norm(elt.orelse)
-        detail = short(elt, 120)
-        mn = norm(elt.test.comparators[0]) if isinstance(elt, ast.IfExp) and isinstance(elt.test, ast.Compare) else ''
-        defs = [s for s in walk_fn(fn) if isinstance(s, ast.Assign) and norm(s.targets[0]) == mn]
-        ok2 = bool(defs) and norm(defs[0].value) == f'{fn.params[1]}.metric_nodes'
-        ctx.ob(rule, fkey(fn, rule, 'absence-tested-against-instance'), ok2, fn.where,
-               'absence of the constraint\'s node is tested against the metric nodes of the evaluated instance',
-               short(defs[0]) if defs else 'missing')
-    ctx.ob(rule, fkey(fn, rule, 'absent-constraint-reports-reference'), ok, fn.where,
-           'the value of a constraint is its reference value exactly when its node is absent from the evaluated '
-           'architecture; otherwise the evaluator\'s value (NaN if missing), in the order of self.constraints',
-           detail)
-    rets = returns_of(fn)
-    ok = bool(rets) and norm(rets[0].value) == '(objective_values, constraint_values)'
+    if len(fn.params) < 2:
+        raise AnalysisError('evaluate: signature changed')
+    inst = fn.params[1]
+    helpers = {h.name: h for h in unit_functions(ctx.prog, fn)[1:] if h.name != '_evaluate'}
+    paths = absint.Interp(fn, helpers).run()
+    T = absint._t
+    NANS = {('attr', ('name', 'math'), 'nan'), ('attr', ('name', 'np'), 'nan'), ('attr', ('name', 'numpy'), 'nan'),
+            ('call', ('name', 'float'), ('nan',)), ('name', 'nan')}
+    MN = ('attr', ('name', inst), 'metric_nodes')
+
+    def is_eval(t):
+        # the mapping returned by self._evaluate(<instance>, ...) in this call
+        return isinstance(t, tuple) and t[0] == 'call' and t[1] == ('attr', ('name', 'self'), '_evaluate') and \
+            t[2] and t[2][0] == ('name', inst)
+
+    def lookup(t):
+        """(receiver, key, default) of `<m>.get(key, default)` / `<m>[key]`, else None."""
+        if isinstance(t, tuple) and t[0] == 'call' and t[1][0] == 'attr' and t[1][2] == 'get' and 1 <= len(t[2]) <= 2:
+            return t[1][1], t[2][0], (t[2][1] if len(t[2]) == 2 else 'none')
+        if isinstance(t, tuple) and t[0] == 'index':
+            return t[1], t[2], 'keyerror'
+        return None
+    if not paths or any(q.outcome[0] != 'return' for q in paths):
+        raise AnalysisError(f'evaluate: a path does not return ({[q.outcome for q in paths]})')
+    rets = [q.outcome[1] for q in paths]
+    ok = all(isinstance(r, tuple) and len(r) == 2 and all(isinstance(x, absint.AList) for x in r) for r in rets)
     ctx.ob(rule, fkey(fn, rule, 'returns-objectives-then-constraints'), ok, fn.where,
-           'the result is (objective values, constraint values)', short(rets[0]) if rets else 'missing')
-    st = [c for c in calls(fn, 'set_metric_value')]
-    ok = bool(st) and 'value_map.get(metric_node, math.nan)' in norm(st[0])
+           'the result is (objective values, constraint values), two lists built in this call', repr(rets[0])[:120])
+    if not ok:
+        return
+
+    def side_checks(side, idx, values_of):
+        elem = ('elem', ('attr', ('name', 'self'), side))
+        key = ('attr', elem, 'node')
+        ok_one = ok_src = ok_nan = ok_through = True
+        detail = ''
+        for q, r in zip(paths, rets):
+            items = r[idx].items
+            if len(items) != 1:
+                ok_one = False
+                detail = f'{len(items)} value(s) per generic {side[:-1]}'
+                continue
+            for v in values_of(q, items[0]):
+                lk = lookup(T(v))
+                if lk is None:
+                    ok_through = False
+                    detail = f'reported value is `{absint.fmt(T(v))}`'
+                    continue
+                recv, k, d = lk
+                ok_one &= (k == key)
+                ok_src &= is_eval(recv)
+                ok_nan &= d in NANS
+                detail = detail or f'{absint.fmt(T(v))}'
+        return ok_one, ok_src, ok_nan, ok_through, detail
+
+    # objectives: the single item is the look-up itself
+    o_one, o_src, o_nan, o_thr, o_det = side_checks('objectives', 0, lambda q, v: [v])
+    ctx.ob(rule, fkey(fn, rule, 'one-value-per-objective-in-order'), o_one, fn.where,
+           'one value per objective, in the order of self.objectives, looked up by the objective\'s node', o_det)
+    ctx.ob(rule, fkey(fn, rule, 'value-from-this-evaluation:objective.node'), o_src, fn.where,
+           'the value reported for an objective is looked up in the mapping returned by _evaluate for this instance',
+           o_det)
+    ctx.ob(rule, fkey(fn, rule, 'nan-default:objective.node'), o_nan, fn.where,
+           'an objective value that the evaluator did not provide is reported as NaN', o_det)
+    ctx.ob(rule, fkey(fn, rule, 'value-handed-through:objective.node'), o_thr, fn.where,
+           'the evaluator\'s value is reported itself (no truthiness fallback that would also replace 0.0)', o_det)
+
+    # constraints: value under "node present in this instance" / "absent"
+    celem = ('elem', ('attr', ('name', 'self'), 'constraints'))
+    present_terms = []
+
+    def resolve(q, v, present):
+        """The value of the generic constraint on this path under the assumption; None if the path contradicts it."""
+        t = T(v)
+        for ct, truth_ in q.conds:
+            if isinstance(ct, tuple) and ct[0] == 'in' and ct[1] == ('attr', celem, 'node'):
+                present_terms.append(ct)
+                if truth_ != present:
+                    return None
+        while isinstance(t, tuple) and t[0] == 'ite':
+            test, flip = absint.canon(t[1])
+            if not (isinstance(test, tuple) and test[0] == 'in' and test[1] == ('attr', celem, 'node')):
+                break
+            present_terms.append(test)
+            t = t[2] if (present != flip) else t[3]
+        return t
+    ok_present = ok_absent = c_one = True
+    c_src = c_nan = c_thr = True
+    det_p = det_a = ''
+    seen_present = seen_absent = False
+    for q, r in zip(paths, rets):
+        items = r[1].items
+        if len(items) != 1:
+            c_one = False
+            continue
+        tp, ta = resolve(q, items[0], True), resolve(q, items[0], False)
+        if tp is not None:
+            seen_present = True
+            lk = lookup(tp)
+            det_p = absint.fmt(tp)
+            if lk is None:
+                c_thr = False
+                ok_present = ok_present and False
+            else:
+                recv, k, d = lk
+                ok_present &= (k == ('attr', celem, 'node'))
+                c_src &= is_eval(recv)
+                c_nan &= d in NANS
+        if ta is not None:
+            seen_absent = True
+            det_a = absint.fmt(ta)
+            ok_absent &= (ta == ('attr', celem, 'ref'))
+    tested = {t for t in present_terms}
+    ctx.ob(rule, fkey(fn, rule, 'absent-constraint-reports-reference'),
+           c_one and seen_present and seen_absent and ok_present and ok_absent and bool(tested), fn.where,
+           'the value of a constraint is its reference value exactly when its node is absent from the evaluated '
+           'architecture; otherwise the evaluator\'s value, in the order of self.constraints',
+           f'present: {det_p or "?"}; absent: {det_a or "?"}')
+    ctx.ob(rule, fkey(fn, rule, 'absence-tested-against-instance'), bool(tested) and all(t[2] == MN for t in tested),
+           fn.where, 'absence of the constraint\'s node is tested against the metric nodes of the evaluated instance',
+           '; '.join(absint.fmt(t) for t in tested) or 'no membership test on the constraint\'s node')
+    ctx.ob(rule, fkey(fn, rule, 'value-from-this-evaluation:constraint.node'), c_src and seen_present, fn.where,
+           'the value reported for a present constraint is looked up in the mapping returned by _evaluate for this '
+           'instance', det_p)
+    ctx.ob(rule, fkey(fn, rule, 'nan-default:constraint.node'), c_nan and seen_present, fn.where,
+           'a constraint value that the evaluator did not provide is reported as NaN', det_p)
+    ctx.ob(rule, fkey(fn, rule, 'value-handed-through:constraint.node'), c_thr, fn.where,
+           'the evaluator\'s value is reported itself (no truthiness fallback that would also replace 0.0)', det_p)
+    # every metric node of the instance gets its value stored on the instance
+    ok = True
+    det = 'no set_metric_value call'
+    for q in paths:
+        sets = [e[1] for e in q.trace if e[0] == 'call' and e[1][1][0] == 'attr' and e[1][1][2] == 'set_metric_value']
+        good = False
+        for t in sets:
+            args = t[2]
+            if t[1][1] == ('name', inst) and len(args) == 2 and args[0] == ('elem', MN):
+                lk = lookup(args[1])
+                det = absint.fmt(t)
+                good = lk is not None and is_eval(lk[0]) and lk[1] == ('elem', MN) and lk[2] in NANS
+        ok &= good
     ctx.ob(rule, fkey(fn, rule, 'values-stored-on-instance'), ok, fn.where,
-           'every metric node of the instance gets its value (NaN if missing) stored on the instance', '')
+           'every metric node of the instance gets its value (NaN if missing) stored on the instance', det)
     gp = ctx.prog.cls(GP)
     for nm, idx in (('objectives', 0), ('constraints', 1)):
         m = gp.methods[nm]
@@ -256,7 +411,7 @@ from ..selftest import V  # noqa: E402
 
 VARIANTS = [
     V('zero-value-reported-as-nan', 'optimization/evaluator.py',
-      [("        objective_values = [value_map.get(objective.node, math.nan) for objective in self.objectives]", "        def _get_value(metric_node):\n            return value_map.get(metric_node) or math.nan\n        objective_values = [_get_value(objective.node) for objective in self.objectives]")], key='helper-hands-value-through'),
+      [("        objective_values = [value_map.get(objective.node, math.nan) for objective in self.objectives]", "        def _get_value(metric_node):\n            return value_map.get(metric_node) or math.nan\n        objective_values = [_get_value(objective.node) for objective in self.objectives]")], key='value-handed-through'),
     V('constraint-read-from-stored-values', 'optimization/evaluator.py',
       [("constraint_values = [value_map.get(constraint.node, math.nan)\n                             if constraint.node in metric_nodes else constraint.ref\n                             for constraint in self.constraints]",
         "metric_values = dsg.metric_values\n        constraint_values = [metric_values.get(constraint.node, constraint.ref) for constraint in self.constraints]")],
